@@ -38,6 +38,10 @@ def build(h, cls, pos, joins, vcls="Vertex"):
     b = a if (pos == "both" and joins) else h.vertex("b", vcls)
     other = a if pos == "both" else (b if joins else h.vertex("c", vcls))
     ends = {"v1": [a, other], "v2": [other, a], "both": [a, a]}[pos]
+    if getattr(h, "aux", None):
+        l = h.new(cls, "L", *ends)      # auxiliary state in this tree: the link is made by its constructor
+        h.settle()
+        return a, b, l
     l = h.link("L", cls, ends)
     a.fields["_links"] = Seq([l], "list")
     if other is not a:
@@ -150,12 +154,18 @@ def run(ctx):
                 h.reset()
                 a, b, c = h.vertex("a", vcls), h.vertex("b", vcls), h.vertex("c", vcls)
                 ls = []
-                for i, (cls, pos) in enumerate((r1, r2)):
-                    ls.append(h.link(f"L{i}", cls, [a, b] if pos == "v1" else [b, a]))
-                other = h.link("K", "DirectedEdge", [a, c])
-                a.fields["_links"] = Seq([ls[0], other, ls[1]], "list")
-                b.fields["_links"] = Seq(list(ls), "list")
-                c.fields["_links"] = Seq([other], "list")
+                if getattr(h, "aux", None):
+                    (c0, p0), (c1, p1) = r1, r2
+                    ls.append(h.new(c0, "L0", *([a, b] if p0 == "v1" else [b, a])))
+                    other = h.new("DirectedEdge", "K", a, c)
+                    ls.append(h.new(c1, "L1", *([a, b] if p1 == "v1" else [b, a])))
+                else:
+                    for i, (cls, pos) in enumerate((r1, r2)):
+                        ls.append(h.link(f"L{i}", cls, [a, b] if pos == "v1" else [b, a]))
+                    other = h.link("K", "DirectedEdge", [a, c])
+                    a.fields["_links"] = Seq([ls[0], other, ls[1]], "list")
+                    b.fields["_links"] = Seq(list(ls), "list")
+                    c.fields["_links"] = Seq([other], "list")
                 h.settle()
                 cb = None if filt == "none" else c04.mkfilter("selective", (ls[1],))
                 out = h.call(fn, a, b, ds, C[uh], cb)
@@ -215,14 +225,19 @@ def run(ctx):
             b = a if selfloop else h.vertex("b", vcls)
             c = h.vertex("c", vcls)
             ls = []
-            for i, (cls, pos) in enumerate(zip(classes, poss)):
-                ends = {"v1": [a, b], "v2": [b, a], "both": [a, a]}[pos]
-                ls.append(h.link(f"L{i}", cls, ends))
-            keep = h.link("K", "DirectedEdge", [a, c])
-            a.fields["_links"] = Seq([keep] + ls, "list")
-            if b is not a:
-                b.fields["_links"] = Seq(list(ls), "list")
-            c.fields["_links"] = Seq([keep], "list")
+            if getattr(h, "aux", None):
+                keep = h.new("DirectedEdge", "K", a, c)
+                for i, (cls, pos) in enumerate(zip(classes, poss)):
+                    ls.append(h.new(cls, f"L{i}", *{"v1": [a, b], "v2": [b, a], "both": [a, a]}[pos]))
+            else:
+                for i, (cls, pos) in enumerate(zip(classes, poss)):
+                    ends = {"v1": [a, b], "v2": [b, a], "both": [a, a]}[pos]
+                    ls.append(h.link(f"L{i}", cls, ends))
+                keep = h.link("K", "DirectedEdge", [a, c])
+                a.fields["_links"] = Seq([keep] + ls, "list")
+                if b is not a:
+                    b.fields["_links"] = Seq(list(ls), "list")
+                c.fields["_links"] = Seq([keep], "list")
             h.settle()
             o = h.call(unlink, a, b)
             rows = []
